@@ -272,7 +272,6 @@ func (m *Model) tableRows(g *ssa.Global) (rows [][]string, ok bool) {
 	return rows, true
 }
 
-
 // globalStructString: the constant string that the initialiser of package-level struct variable
 // g gives to field number `field`, provided the variable is only ever read field by field.
 func (m *Model) globalStructString(g *ssa.Global, field int) (string, bool) {
